@@ -63,7 +63,7 @@ struct HmHarness : HarnessBase {
 		universe = pre;
 		for(int k : alphabet) if(std::find(universe.begin(), universe.end(), k) == universe.end()) universe.push_back(k);
 	}
-	const char *prop() const { return "C14"; }
+	const char *prop() const { return wanted_prop() == "C16" ? "C16" : "C14"; }   // C16 runs this harness too: a crash, sanitizer report or assertion then counts for it
 	M &m() { return *reinterpret_cast<M *>(store); }
 	void reset() {
 		world_reset();
